@@ -37,7 +37,7 @@ def _strip_placeholder(s):
 
 def _tokens(s):
     s = re.sub(r'\.\.\. on \w+ ?\{|\.\.\.\{', ' ', s)
-    return sorted(re.sub(r'[{}]', ' ', s).split())
+    return sorted(set(re.sub(r'[{}]', ' ', s).split()))      # as a set: deduplication is per selection set
 
 
 def classify(case, detail):
